@@ -1,8 +1,10 @@
 //! vengine <ID> [quick|thorough]  |  vengine <ID> --replay <file>
 mod alloc;
+mod builders;
 mod faults;
 mod graphs;
 mod hist;
+mod ident;
 mod oracle;
 mod paths;
 mod reg;
@@ -23,6 +25,19 @@ fn main() {
     }
     silence_panics();
     let id = args[1].as_str();
+    if id == "probe-count" {
+        println!("{}", vuniverse::u1::universe().len());
+        return;
+    }
+    if id == "probe-reg" {
+        let u = vuniverse::u1::universe();
+        let m = &u[args[2].parse::<usize>().unwrap()];
+        println!("{}", m.label);
+        let mut r = scale_info::Registry::new();
+        r.register_type(&m.meta);
+        let _p: scale_info::PortableRegistry = r.into();
+        return;
+    }
     if id == "C14-child" {
         let a = |i: usize| args[i].parse::<u64>().unwrap();
         std::process::exit(faults::child(args[2] == "thorough", a(3), a(4), a(5), a(6), &args[7]));
@@ -34,6 +49,8 @@ fn main() {
         let code = match id {
             "C18" => paths::replay(&body),
             "C14" => faults::replay(&body),
+            "C16" => ident::replay(&body),
+            "C17" => builders::replay(&body),
             "C06" | "C07" | "C08" => wire::replay(id, &body),
             "C01" | "C02" | "C05" | "C10" | "C11" | "C12" => reg::replay(id, &body),
             _ => {
@@ -48,6 +65,8 @@ fn main() {
     let code = match id {
         "C18" => paths::run(thorough),
         "C14" => faults::run(thorough),
+        "C16" => ident::run(thorough),
+        "C17" => builders::run(thorough),
         "C06" | "C07" | "C08" => wire::run(id, thorough),
         "C01" => reg::run("C01", thorough),
         "C02" => reg::run("C02", thorough),
